@@ -452,3 +452,26 @@ Proof.
     pose proof (Ztrunc_abs_lt _ _ Fin) as T.
     rewrite f_to_i64_spec; [exact T|exact Fx|]. unfold min_i64, max_i64. lia.
 Qed.
+
+(* a positive duration has a positive number of seconds (at least 2^-30) *)
+Lemma dur_seconds_pos z : (1 <= z <= max_i64)%Z -> 0 < R (dur_seconds z).
+Proof.
+  intros Hz. assert (Hz' : (0 <= z <= max_i64)%Z) by lia.
+  assert (Hi : in_i64 z) by (unfold in_i64, min_i64, max_i64 in *; lia).
+  destruct (dur_seconds_nonneg z Hz') as [[Lo _] _].
+  destruct (Z_le_gt_dec 1 (z / E9)) as [Q|Q].
+  - eapply Rlt_le_trans; [|exact Lo]. apply IZR_lt. lia.
+  - assert (Q0 : (z / E9 = 0)%Z) by (assert (0 <= z / E9)%Z by (apply Z.div_pos; unfold E9; lia); lia).
+    destruct (dur_seconds_core z Hi) as [_ [E _]].
+    assert (Eq : Z.quot z E9 = 0%Z) by (rewrite Z.quot_div_nonneg by (unfold E9; lia); exact Q0).
+    assert (Er : Z.rem z E9 = z).
+    { rewrite Z.rem_mod_nonneg by (unfold E9; lia). pose proof (Z.div_mod z E9). unfold E9 in *. lia. }
+    rewrite Eq, Er, Rplus_0_l in E. rewrite E.
+    assert (B : bpow radix2 (-30) <= rnd (IZR z / IZR E9)).
+    { rewrite <- (rnd_id (bpow radix2 (-30))) by (apply fmt_bpow; lia). apply rnd_le.
+      change (bpow radix2 (-30)) with (/ IZR (Zpower_pos 2 30)). change (Zpower_pos 2 30) with 1073741824%Z.
+      unfold E9. assert (1 <= IZR z) by (apply IZR_le; lia).
+      apply Rmult_le_reg_r with 1000000000; [lra|]. unfold Rdiv. rewrite Rmult_assoc, Rinv_l by lra. lra. }
+    eapply Rlt_le_trans; [apply (bpow_gt_0 radix2 (-30))|].
+    rewrite <- (rnd_id (bpow radix2 (-30))) by (apply fmt_bpow; lia). apply rnd_le. exact B.
+Qed.
